@@ -35,9 +35,16 @@ type Frame struct {
 type Term struct {
 	V ssa.Value
 	F *Frame
+	E int // epoch: how many loop re-entries the path had made when the value was current
 }
 
 func (t Term) IsZero() bool { return t.V == nil }
+
+// Sub is an operand of the instruction that computes t: a value of the same activation at the same time.
+func (t Term) Sub(v ssa.Value) Term { return Term{v, t.F, t.E} }
+
+// Term is a value as it is when the event happens.
+func (e Event) Term(v ssa.Value) Term { return Term{v, e.F, e.E} }
 
 // Cond is a branch condition as taken on a path.
 type Cond struct {
@@ -52,6 +59,7 @@ type Event struct {
 	F     *Frame
 	NCond int // number of conditions of the path taken before the event
 	Seq   int
+	E     int
 }
 
 // Visit records that a path entered a block.
@@ -69,10 +77,51 @@ type Path struct {
 	End    string // "return", "panic", "cut" (loop bound or depth), "stop"
 	Ret    *ssa.Return
 	RetF   *Frame
-	vals   map[valKey]Term
-	tuples map[valKey][]Term
+	RetE   int
+	vals   map[valKey][]bind
+	tuples map[valKey][]tbind
 	cells  map[string]Term
 	ex     *Explorer
+}
+
+type bind struct {
+	e int
+	t Term
+}
+
+type tbind struct {
+	e  int
+	ts []Term
+}
+
+func getVal(m map[valKey][]bind, v ssa.Value, f *Frame, e int) (Term, bool) {
+	bs := m[valKey{v, f}]
+	for i := len(bs) - 1; i >= 0; i-- {
+		if bs[i].e <= e {
+			return bs[i].t, true
+		}
+	}
+	return Term{}, false
+}
+
+func setVal(m map[valKey][]bind, v ssa.Value, f *Frame, e int, t Term) {
+	k := valKey{v, f}
+	m[k] = append(append([]bind(nil), m[k]...), bind{e, t})
+}
+
+func getTuple(m map[valKey][]tbind, v ssa.Value, f *Frame, e int) ([]Term, bool) {
+	bs := m[valKey{v, f}]
+	for i := len(bs) - 1; i >= 0; i-- {
+		if bs[i].e <= e {
+			return bs[i].ts, true
+		}
+	}
+	return nil, false
+}
+
+func setTuple(m map[valKey][]tbind, v ssa.Value, f *Frame, e int, ts []Term) {
+	k := valKey{v, f}
+	m[k] = append(append([]tbind(nil), m[k]...), tbind{e, ts})
 }
 
 type valKey struct {
@@ -106,11 +155,15 @@ type state struct {
 	conds  []Cond
 	events []Event
 	trace  []Visit
-	vals   map[valKey]Term
-	tuples map[valKey][]Term
+	vals   map[valKey][]bind
+	tuples map[valKey][]tbind
 	cells  map[string]Term
 	visits map[valKeyB]int
 	seq    int
+	epoch  int
+	// decided: the truth of the atoms the path has already branched on (a second test of the same values — the
+	// caller re-testing the error a helper returned — is not a new choice)
+	decided map[string]bool
 }
 
 type valKeyB struct {
@@ -123,11 +176,11 @@ func (s *state) clone() *state {
 	n.conds = append([]Cond(nil), s.conds...)
 	n.events = append([]Event(nil), s.events...)
 	n.trace = append([]Visit(nil), s.trace...)
-	n.vals = make(map[valKey]Term, len(s.vals))
+	n.vals = make(map[valKey][]bind, len(s.vals))
 	for k, v := range s.vals {
 		n.vals[k] = v
 	}
-	n.tuples = make(map[valKey][]Term, len(s.tuples))
+	n.tuples = make(map[valKey][]tbind, len(s.tuples))
 	for k, v := range s.tuples {
 		n.tuples[k] = v
 	}
@@ -138,6 +191,10 @@ func (s *state) clone() *state {
 	n.visits = make(map[valKeyB]int, len(s.visits))
 	for k, v := range s.visits {
 		n.visits[k] = v
+	}
+	n.decided = make(map[string]bool, len(s.decided))
+	for k, v := range s.decided {
+		n.decided[k] = v
 	}
 	return &n
 }
@@ -163,7 +220,7 @@ func (ex *Explorer) ExploreFrom(start *ssa.BasicBlock) []*Path {
 	ex.loops = map[*ssa.Function]map[*ssa.BasicBlock]map[*ssa.BasicBlock]bool{}
 	root := &Frame{Fn: ex.Root, ID: 0}
 	ex.nframes = 1
-	st := &state{frame: root, block: start, vals: map[valKey]Term{}, tuples: map[valKey][]Term{}, cells: map[string]Term{}, visits: map[valKeyB]int{}}
+	st := &state{frame: root, block: start, vals: map[valKey][]bind{}, tuples: map[valKey][]tbind{}, cells: map[string]Term{}, visits: map[valKeyB]int{}, decided: map[string]bool{}}
 	var out []*Path
 	ex.run(st, &out)
 	return out
@@ -171,7 +228,7 @@ func (ex *Explorer) ExploreFrom(start *ssa.BasicBlock) []*Path {
 
 func (ex *Explorer) finish(st *state, end string, ret *ssa.Return, out *[]*Path) {
 	ex.npaths++
-	*out = append(*out, &Path{Conds: st.conds, Events: st.events, Trace: st.trace, End: end, Ret: ret, RetF: st.frame, vals: st.vals, tuples: st.tuples, cells: st.cells, ex: ex})
+	*out = append(*out, &Path{Conds: st.conds, Events: st.events, Trace: st.trace, End: end, Ret: ret, RetF: st.frame, RetE: st.epoch, vals: st.vals, tuples: st.tuples, cells: st.cells, ex: ex})
 }
 
 // LoopBody: the blocks of the natural loop(s) headed by h (empty when h is not a loop header).
@@ -224,7 +281,12 @@ outer:
 			st.visits[k]++
 			st.trace = append(st.trace, Visit{b, st.frame, st.seq})
 			st.seq++
-			// join values: the input of the edge the path came in through
+			// join values: the input of the edge the path came in through. Coming round a loop starts a new epoch: what was
+			// computed before keeps referring to the old values of the loop variables
+			old := st.epoch
+			if st.visits[k] > 1 {
+				st.epoch++
+			}
 			for _, in := range b.Instrs {
 				phi, ok := in.(*ssa.Phi)
 				if !ok {
@@ -232,7 +294,7 @@ outer:
 				}
 				for i, p := range b.Preds {
 					if p == st.prev && i < len(phi.Edges) {
-						st.vals[valKey{phi, st.frame}] = ex.resolve(st.vals, st.tuples, Term{phi.Edges[i], st.frame})
+						setVal(st.vals, phi, st.frame, st.epoch, ex.resolve(st.vals, st.tuples, Term{phi.Edges[i], st.frame, old}))
 					}
 				}
 			}
@@ -243,47 +305,62 @@ outer:
 			case *ssa.Phi, *ssa.DebugRef:
 			case *ssa.UnOp:
 				if x.Op == token.MUL {
-					if key := ex.cellKey(st, Term{x.X, st.frame}); key != "" {
+					if key := ex.cellKey(st, st.term(x.X)); key != "" {
 						if v, ok := st.cells[key]; ok {
-							st.vals[valKey{x, st.frame}] = v
+							setVal(st.vals, x, st.frame, st.epoch, v)
 						}
 					}
 				}
 			case *ssa.Store:
-				if key := ex.cellKey(st, Term{x.Addr, st.frame}); key != "" {
-					st.cells[key] = ex.resolve(st.vals, st.tuples, Term{x.Val, st.frame})
+				if key := ex.cellKey(st, st.term(x.Addr)); key != "" {
+					st.cells[key] = ex.resolve(st.vals, st.tuples, st.term(x.Val))
 				}
-				st.events = append(st.events, Event{x, st.frame, len(st.conds), st.seq})
+				st.events = append(st.events, Event{x, st.frame, len(st.conds), st.seq, st.epoch})
 				st.seq++
 			case *ssa.MapUpdate:
-				st.events = append(st.events, Event{x, st.frame, len(st.conds), st.seq})
+				st.events = append(st.events, Event{x, st.frame, len(st.conds), st.seq, st.epoch})
 				st.seq++
 			case *ssa.Call:
-				if callee := ex.calleeOf(st, x); callee != nil && st.frame.depth < ex.MaxDepth && !onStack(st.frame, callee.fn) {
-					nf := &Frame{Fn: callee.fn, Parent: st.frame, Site: x, ID: ex.nframes, depth: st.frame.depth + 1, args: map[*ssa.Parameter]Term{}, free: callee.free}
-					ex.nframes++
-					for i, prm := range callee.fn.Params {
-						if i < len(x.Call.Args) {
-							nf.args[prm] = ex.resolve(st.vals, st.tuples, Term{x.Call.Args[i], st.frame})
+				if cands := ex.calleesOf(st, x); len(cands) > 0 && st.frame.depth < ex.MaxDepth {
+					var usable []*calleeInfo
+					for _, c := range cands {
+						if !onStack(st.frame, c.fn) {
+							usable = append(usable, c)
 						}
 					}
-					st.idx++ // resume after the call
-					// remember where to come back to
-					nf.Site = x
-					st.frameStackPush(nf, b, st.idx)
-					continue outer
+					if len(usable) == len(cands) {
+						st.idx++ // resume after the call
+						for i, callee := range usable {
+							ns := st
+							if i < len(usable)-1 {
+								ns = st.clone()
+							}
+							nf := &Frame{Fn: callee.fn, Parent: ns.frame, Site: x, ID: ex.nframes, depth: ns.frame.depth + 1, args: map[*ssa.Parameter]Term{}, free: callee.free}
+							ex.nframes++
+							for i, prm := range callee.fn.Params {
+								if i < len(x.Call.Args) {
+									nf.args[prm] = ex.resolve(ns.vals, ns.tuples, ns.term(x.Call.Args[i]))
+								}
+							}
+							ns.frameStackPush(nf, b, ns.idx)
+							if i < len(usable)-1 {
+								ex.run(ns, out)
+							}
+						}
+						continue outer
+					}
 				}
-				st.events = append(st.events, Event{x, st.frame, len(st.conds), st.seq})
+				st.events = append(st.events, Event{x, st.frame, len(st.conds), st.seq, st.epoch})
 				st.seq++
 			case *ssa.Defer, *ssa.Go:
-				st.events = append(st.events, Event{x, st.frame, len(st.conds), st.seq})
+				st.events = append(st.events, Event{x, st.frame, len(st.conds), st.seq, st.epoch})
 				st.seq++
 			case *ssa.Panic:
 				ex.finish(st, "panic", nil, out)
 				return
 			case *ssa.Return:
 				if st.frame.Parent == nil {
-					st.events = append(st.events, Event{x, st.frame, len(st.conds), st.seq})
+					st.events = append(st.events, Event{x, st.frame, len(st.conds), st.seq, st.epoch})
 					st.seq++
 					ex.finish(st, "return", x, out)
 					return
@@ -291,15 +368,14 @@ outer:
 				// hand the results to the caller and resume there
 				res := make([]Term, len(x.Results))
 				for i, rv := range x.Results {
-					res[i] = ex.resolve(st.vals, st.tuples, Term{rv, st.frame})
+					res[i] = ex.resolve(st.vals, st.tuples, st.term(rv))
 				}
 				callee := st.frame
 				site := callee.Site.(*ssa.Call)
-				k := valKey{site, callee.Parent}
 				if len(res) == 1 {
-					st.vals[k] = res[0]
+					setVal(st.vals, site, callee.Parent, st.epoch, res[0])
 				} else {
-					st.tuples[k] = res
+					setTuple(st.tuples, site, callee.Parent, st.epoch, res)
 				}
 				st.frameStackPop()
 				continue outer
@@ -310,7 +386,13 @@ outer:
 				}
 				continue outer
 			case *ssa.If:
-				val, known := ex.evalCond(st, Term{x.Cond, st.frame})
+				val, known := ex.evalCond(st, st.term(x.Cond))
+				ckey, cneg := ex.condKey(st, st.term(x.Cond), 0)
+				if !known && ckey != "" {
+					if d, ok := st.decided[ckey]; ok {
+						val, known = d != cneg, true
+					}
+				}
 				ways := []bool{true, false}
 				if known {
 					ways = []bool{val}
@@ -342,7 +424,10 @@ outer:
 					if !w {
 						succ = b.Succs[1]
 					}
-					ns.conds = append(ns.conds, Cond{T: ex.resolve(ns.vals, ns.tuples, Term{x.Cond, ns.frame}), Branch: w, If: x})
+					ns.conds = append(ns.conds, Cond{T: ex.resolve(ns.vals, ns.tuples, ns.term(x.Cond)), Branch: w, If: x})
+					if ckey != "" {
+						ns.decided[ckey] = w != cneg
+					}
 					ns.prev, ns.block, ns.idx = b, succ, 0
 					if ex.enter(ns, out) {
 						ex.run(ns, out)
@@ -407,7 +492,10 @@ type calleeInfo struct {
 	free map[*ssa.FreeVar]Term
 }
 
-func (ex *Explorer) calleeOf(st *state, call *ssa.Call) *calleeInfo {
+// calleesOf: the functions a call may enter — one for a static callee or a local closure, several for a dispatch
+// through a package-level table that is filled by its initialiser and never written afterwards (the path forks).
+// Empty when the call is not followed.
+func (ex *Explorer) calleesOf(st *state, call *ssa.Call) []*calleeInfo {
 	cc := call.Common()
 	if cc.IsInvoke() {
 		return nil
@@ -415,26 +503,55 @@ func (ex *Explorer) calleeOf(st *state, call *ssa.Call) *calleeInfo {
 	if _, isB := cc.Value.(*ssa.Builtin); isB {
 		return nil
 	}
-	v := ex.resolve(st.vals, st.tuples, Term{cc.Value, st.frame})
-	switch x := v.V.(type) {
-	case *ssa.Function:
-		if ex.Follow(x) {
-			return &calleeInfo{fn: x}
-		}
-	case *ssa.MakeClosure:
-		fn, ok := x.Fn.(*ssa.Function)
-		if !ok || len(fn.Blocks) == 0 {
-			return nil
-		}
-		free := map[*ssa.FreeVar]Term{}
-		for i, fv := range fn.FreeVars {
-			if i < len(x.Bindings) {
-				free[fv] = ex.resolve(st.vals, st.tuples, Term{x.Bindings[i], v.F})
+	v := ex.resolve(st.vals, st.tuples, st.term(cc.Value))
+	var one func(v Term, depth int) []*calleeInfo
+	one = func(v Term, depth int) []*calleeInfo {
+		switch x := v.V.(type) {
+		case *ssa.Function:
+			fn := x
+			if len(fn.Blocks) == 1 && (strings.HasPrefix(fn.Synthetic, "thunk") || strings.HasPrefix(fn.Synthetic, "bound method wrapper") || strings.HasPrefix(fn.Synthetic, "wrapper for")) {
+				// method expression or bound method wrapper: enter it, it forwards to the method
+				return []*calleeInfo{{fn: fn}}
 			}
+			if ex.Follow(fn) {
+				return []*calleeInfo{{fn: fn}}
+			}
+		case *ssa.MakeClosure:
+			fn, ok := x.Fn.(*ssa.Function)
+			if !ok || len(fn.Blocks) == 0 {
+				return nil
+			}
+			free := map[*ssa.FreeVar]Term{}
+			for i, fv := range fn.FreeVars {
+				if i < len(x.Bindings) {
+					free[fv] = ex.resolve(st.vals, st.tuples, v.Sub(x.Bindings[i]))
+				}
+			}
+			return []*calleeInfo{{fn: fn, free: free}}
+		case *ssa.Extract:
+			if lk, ok := x.Tuple.(*ssa.Lookup); ok && x.Index == 0 && depth < 2 {
+				return one(v.Sub(lk), depth+1)
+			}
+		case *ssa.Lookup:
+			m := ex.resolve(st.vals, st.tuples, v.Sub(x.X))
+			vals, ok := GlobalTableValues(m.V)
+			if !ok || depth > 2 {
+				return nil
+			}
+			var out []*calleeInfo
+			for _, tv := range vals {
+				// table values live in the package initialiser: constants there
+				c := one(Term{V: tv, F: nil}, depth+1)
+				if len(c) != 1 {
+					return nil
+				}
+				out = append(out, c[0])
+			}
+			return out
 		}
-		return &calleeInfo{fn: fn, free: free}
+		return nil
 	}
-	return nil
+	return one(v, 0)
 }
 
 // cellKey names the memory cell an address denotes, for the cells whose content is tracked along a path: local
@@ -450,14 +567,14 @@ func (ex *Explorer) cellKey(st *state, addr Term) string {
 			return ex.cellKey(st, b)
 		}
 	case *ssa.FieldAddr:
-		base := ex.resolve(st.vals, st.tuples, Term{x.X, a.F})
+		base := ex.resolve(st.vals, st.tuples, a.Sub(x.X))
 		bk := ""
 		switch bx := base.V.(type) {
 		case *ssa.Alloc:
 			bk = fmt.Sprintf("alloc:%p:%d", bx, base.F.ID)
 		case *ssa.UnOp:
 			if bx.Op == token.MUL {
-				bk = ex.cellKey(st, Term{bx.X, base.F})
+				bk = ex.cellKey(st, base.Sub(bx.X))
 				if bk != "" {
 					bk = "*" + bk
 				}
@@ -476,12 +593,12 @@ func (ex *Explorer) cellKey(st *state, addr Term) string {
 }
 
 // resolve traces a value back as far as the path determines it.
-func (ex *Explorer) resolve(vals map[valKey]Term, tuples map[valKey][]Term, t Term) Term {
+func (ex *Explorer) resolve(vals map[valKey][]bind, tuples map[valKey][]tbind, t Term) Term {
 	for i := 0; i < 64; i++ {
 		if t.V == nil || t.F == nil {
 			return t
 		}
-		if r, ok := vals[valKey{t.V, t.F}]; ok && (r.V != t.V || r.F != t.F) {
+		if r, ok := getVal(vals, t.V, t.F, t.E); ok && (r.V != t.V || r.F != t.F || r.E != t.E) {
 			t = r
 			continue
 		}
@@ -492,8 +609,8 @@ func (ex *Explorer) resolve(vals map[valKey]Term, tuples map[valKey][]Term, t Te
 				continue
 			}
 		case *ssa.Extract:
-			base := ex.resolve(vals, tuples, Term{x.Tuple, t.F})
-			if res, ok := tuples[valKey{base.V, base.F}]; ok && x.Index < len(res) {
+			base := ex.resolve(vals, tuples, t.Sub(x.Tuple))
+			if res, ok := getTuple(tuples, base.V, base.F, base.E); ok && x.Index < len(res) {
 				t = res[x.Index]
 				continue
 			}
@@ -502,7 +619,7 @@ func (ex *Explorer) resolve(vals map[valKey]Term, tuples map[valKey][]Term, t Te
 				return t
 			}
 		case *ssa.ChangeType:
-			t = Term{x.X, t.F}
+			t = t.Sub(x.X)
 			continue
 		}
 		return t
@@ -510,12 +627,17 @@ func (ex *Explorer) resolve(vals map[valKey]Term, tuples map[valKey][]Term, t Te
 	return t
 }
 
+func (st *state) term(v ssa.Value) Term { return Term{v, st.frame, st.epoch} }
+
+// RetTerm is the i-th result of the return that ends the path.
+func (p *Path) RetTerm(i int) Term { return Term{p.Ret.Results[i], p.RetF, p.RetE} }
+
 // Resolve traces a value back on a finished path.
 func (p *Path) Resolve(t Term) Term { return p.ex.resolve(p.vals, p.tuples, t) }
 
 // Operand resolves the i-th operand of the instruction that computes t.
-func (p *Path) Arg(call ssa.CallInstruction, f *Frame, i int) Term {
-	return p.Resolve(Term{call.Common().Args[i], f})
+func (p *Path) Arg(call ssa.CallInstruction, at Term, i int) Term {
+	return p.Resolve(at.Sub(call.Common().Args[i]))
 }
 
 // ---- constant decisions
@@ -542,7 +664,7 @@ func (ex *Explorer) nonNil(st *state, t Term, depth int) bool {
 	case *ssa.Call:
 		return ex.appendsSomething(st, t, depth)
 	case *ssa.ChangeInterface:
-		return ex.nonNil(st, ex.resolve(st.vals, st.tuples, Term{x.X, t.F}), depth+1)
+		return ex.nonNil(st, ex.resolve(st.vals, st.tuples, t.Sub(x.X)), depth+1)
 	}
 	return false
 }
@@ -588,7 +710,7 @@ func (ex *Explorer) nonEmptyString(st *state, t Term, depth int) bool {
 		return x.Value != nil && x.Value.Kind() == constant.String && constant.StringVal(x.Value) != ""
 	case *ssa.BinOp:
 		if x.Op == token.ADD {
-			return ex.nonEmptyString(st, Term{x.X, t.F}, depth+1) || ex.nonEmptyString(st, Term{x.Y, t.F}, depth+1)
+			return ex.nonEmptyString(st, t.Sub(x.X), depth+1) || ex.nonEmptyString(st, t.Sub(x.Y), depth+1)
 		}
 	case *ssa.Call:
 		if c := x.Common().StaticCallee(); c != nil && c.Pkg != nil && c.Pkg.Pkg.Path() == "fmt" && (c.Name() == "Sprintf" || c.Name() == "Errorf") && len(x.Common().Args) > 0 {
@@ -611,6 +733,52 @@ func (ex *Explorer) nonEmptyString(st *state, t Term, depth int) bool {
 	return false
 }
 
+// condKey identifies the atom a condition tests by the identity of the values involved ("" when it has none that is
+// stable); neg tells that the condition is the negation of the atom.
+func (ex *Explorer) condKey(st *state, t Term, depth int) (string, bool) {
+	if depth > 4 {
+		return "", false
+	}
+	t = ex.resolve(st.vals, st.tuples, t)
+	id := func(x Term) string {
+		x = ex.resolve(st.vals, st.tuples, x)
+		if c, ok := x.V.(*ssa.Const); ok {
+			if c.Value == nil {
+				return "const:nil"
+			}
+			return "const:" + c.Value.ExactString()
+		}
+		if x.F == nil {
+			return fmt.Sprintf("%p", x.V)
+		}
+		return fmt.Sprintf("%p:%d:%d", x.V, x.F.ID, x.E)
+	}
+	switch x := t.V.(type) {
+	case *ssa.UnOp:
+		if x.Op == token.NOT {
+			k, n := ex.condKey(st, t.Sub(x.X), depth+1)
+			return k, !n
+		}
+	case *ssa.BinOp:
+		l, r := id(t.Sub(x.X)), id(t.Sub(x.Y))
+		switch x.Op {
+		case token.EQL, token.NEQ:
+			if r < l {
+				l, r = r, l
+			}
+			return "==|" + l + "|" + r, x.Op == token.NEQ
+		case token.LSS, token.GEQ:
+			return "<|" + l + "|" + r, x.Op == token.GEQ
+		case token.GTR, token.LEQ:
+			return ">|" + l + "|" + r, x.Op == token.LEQ
+		}
+		return "", false
+	case *ssa.Const:
+		return "", false
+	}
+	return id(t), false
+}
+
 func (ex *Explorer) evalCond(st *state, t Term) (bool, bool) {
 	return ex.evalCondD(st, t, 0)
 }
@@ -627,12 +795,12 @@ func (ex *Explorer) evalCondD(st *state, t Term, depth int) (bool, bool) {
 		}
 	case *ssa.UnOp:
 		if x.Op == token.NOT {
-			v, k := ex.evalCondD(st, Term{x.X, t.F}, depth+1)
+			v, k := ex.evalCondD(st, t.Sub(x.X), depth+1)
 			return !v, k
 		}
 	case *ssa.BinOp:
-		l := ex.resolve(st.vals, st.tuples, Term{x.X, t.F})
-		r := ex.resolve(st.vals, st.tuples, Term{x.Y, t.F})
+		l := ex.resolve(st.vals, st.tuples, t.Sub(x.X))
+		r := ex.resolve(st.vals, st.tuples, t.Sub(x.Y))
 		switch x.Op {
 		case token.EQL, token.NEQ:
 			eq, known := ex.equal(st, l, r)
@@ -662,14 +830,14 @@ func (ex *Explorer) lenFact(st *state, t Term) (int, bool) {
 	if !isB || b.Name() != "len" {
 		return 0, false
 	}
-	y := ex.resolve(st.vals, st.tuples, Term{call.Common().Args[0], t.F})
+	y := ex.resolve(st.vals, st.tuples, t.Sub(call.Common().Args[0]))
 	if ex.appendsSomething(st, y, 0) {
 		return 1, true
 	}
 	// the Errors field of a multierror accumulator something was appended to
 	if ld, ok := y.V.(*ssa.UnOp); ok && ld.Op == token.MUL {
 		if fa, ok := ld.X.(*ssa.FieldAddr); ok {
-			base := ex.resolve(st.vals, st.tuples, Term{fa.X, y.F})
+			base := ex.resolve(st.vals, st.tuples, y.Sub(fa.X))
 			if ex.appendsSomething(st, base, 0) && strings.Contains(base.V.Type().String(), "multierror") {
 				return 1, true
 			}
